@@ -13,15 +13,15 @@ Open Scope string_scope.
 (* all dictionaries (any keys, any size; python dict = unique keys), any declared list, any
    system params; compared pointwise at every key *)
 
-Theorem C09_param_split_input : forall decl input sys k,
-  NoDup (map fst input) ->
-  lookup k (fst (param_split decl input sys)) = if mem_key k decl then lookup k input else None.
+Theorem C09_param_split_input : forall decl input sys inp' par' k,
+  NoDup (map fst input) -> param_split decl input sys = Some (inp', par') ->
+  lookup k inp' = if mem_key k decl then lookup k input else None.
 Proof. exact param_split_input. Qed.
 Print Assumptions C09_param_split_input.
 
-Theorem C09_param_split_params : forall decl input sys k,
-  NoDup (map fst input) ->
-  lookup k (snd (param_split decl input sys)) =
+Theorem C09_param_split_params : forall decl input sys inp' par' k,
+  NoDup (map fst input) -> param_split decl input sys = Some (inp', par') ->
+  lookup k par' =
     match lookup k input with
     | Some v => if mem_key k decl then lookup k sys else Some v
     | None => lookup k sys
@@ -29,40 +29,30 @@ Theorem C09_param_split_params : forall decl input sys k,
 Proof. exact param_split_params. Qed.
 Print Assumptions C09_param_split_params.
 
-Theorem C09_param_split : forall decl input sys k v,
-  NoDup (map fst input) -> lookup k input = Some v ->
-  (mem_key k decl = true /\ lookup k (fst (param_split decl input sys)) = Some v) \/
-  (mem_key k decl = false /\ lookup k (snd (param_split decl input sys)) = Some v /\
-   lookup k (fst (param_split decl input sys)) = None).
+Theorem C09_param_split : forall decl input sys inp' par' k v,
+  NoDup (map fst input) -> param_split decl input sys = Some (inp', par') -> lookup k input = Some v ->
+  (mem_key k decl = true /\ lookup k inp' = Some v) \/
+  (mem_key k decl = false /\ lookup k par' = Some v /\ lookup k inp' = None).
 Proof. exact param_split_nothing_dropped. Qed.
 Print Assumptions C09_param_split.
 
-(* ---- root / parent task / index / namespace reach the child as the engine set them ---- *)
-(* ... provided no undeclared input key carries the name of a system param *)
-Theorem C09_sys_params_kept : forall decl input sys k,
-  NoDup (map fst input) ->
-  (lookup k input = None \/ mem_key k decl = true) ->
-  lookup k (snd (param_split decl input sys)) = lookup k sys.
+(* ---- root / parent task / index / namespace / notify reach the child as the engine set them ---- *)
+(* unconditional (since the fix "sub-workflow input cannot override the parameters linking it to
+   its parent"): for every started child and every param the engine has set *)
+Theorem C09_sys_params_kept : forall decl input sys inp' par' k,
+  NoDup (map fst input) -> param_split decl input sys = Some (inp', par') ->
+  lookup k sys <> None -> lookup k par' = lookup k sys.
 Proof. exact param_split_sys_kept. Qed.
 Print Assumptions C09_sys_params_kept.
 
-(* the unconditional statement is FALSE for the code: an undeclared input key named
-   root_execution_id / namespace (likewise task_execution_id, index, notify) replaces the
-   system param, so the child records another root / namespace.  Witness replayed on the
-   real engine by the suite (signature subwf:system-param-overridden). *)
-Theorem C09_sys_params_refuted :
-  exists decl input root task index ns,
-    NoDup (map fst input) /\
-    lookup "root_execution_id" (snd (param_split decl input (sys_params root task index ns None))) <> Some root /\
-    lookup "namespace" (snd (param_split decl input (sys_params root task index ns None))) <> Some ns.
-Proof. exact sys_params_refuted. Qed.
-Print Assumptions C09_sys_params_refuted.
-
-Theorem C09_sys_params_overwritten : forall decl input sys k v,
-  NoDup (map fst input) -> lookup k input = Some v -> mem_key k decl = false ->
-  lookup k (snd (param_split decl input sys)) = Some v.
-Proof. exact param_split_sys_overwritten. Qed.
-Print Assumptions C09_sys_params_overwritten.
+(* an undeclared input key with the name of such a param is not silently dropped or applied: the
+   call is refused with the declared InputException, exactly in that case *)
+Theorem C09_reserved_refused : forall decl input sys,
+  NoDup (map fst input) ->
+  (param_split decl input sys = None <->
+   exists k, lookup k input <> None /\ mem_key k decl = false /\ lookup k sys <> None).
+Proof. exact param_split_refused_iff. Qed.
+Print Assumptions C09_reserved_refused.
 
 (* every descendant, at any nesting depth, records the root of the tree *)
 Theorem C09_root_propagation : forall ids r, Forall (fun x => x = r) (descend None r ids).
@@ -123,12 +113,16 @@ Print Assumptions C09_parent_mirrors_child_step.
 
 (* non-vacuity *)
 Example C09_nonvacuous :
-  param_split ["a"; "b"] [("a", 1); ("zz", 3); ("b", 2)] (sys_params 900 901 0 902 None) =
-    ([("a", 1); ("b", 2)],
-     [("root_execution_id", 900); ("task_execution_id", 901); ("index", 0); ("namespace", 902); ("zz", 3)]) /\
+  param_split ["a"; "b"] [("a", 1); ("zz", 3); ("b", 2)] (sys_params 90 91 0 92 None) =
+    Some ([("a", 1); ("b", 2)],
+          [("root_execution_id", 90); ("task_execution_id", 91); ("index", 0); ("namespace", 92); ("zz", 3)]) /\
+  (* the former override witness is refused; `notify` is reserved only when the engine set it *)
+  param_split ["a"] [("a", 1); ("root_execution_id", 7); ("namespace", 8)] (sys_params 90 91 0 92 None) = None /\
+  param_split ["a"] [("a", 1); ("notify", 7)] (sys_params 90 91 0 92 None) <> None /\
+  param_split ["a"] [("a", 1); ("notify", 7)] (sys_params 90 91 0 92 (Some 93)) = None /\
   wb_name_of "my.wb.wf-1" "wf-1" = "my.wb" /\
   wb_name_of "wb.a.b" "a.b" = "" /\
   resolve [mkDef "wb.child" "" 1; mkDef "child" "" 2; mkDef "child" "ns" 3] "wb.p" "p" "ns" "child" = Some 1 /\
   resolve [mkDef "child" "" 2; mkDef "child" "ns" 3] "wb.p" "p" "ns" "child" = Some 3 /\
   descend None 5 [6; 7; 8] = [5; 5; 5].
-Proof. vm_compute. repeat split. Qed.
+Proof. vm_compute. repeat split; discriminate. Qed.
